@@ -1,6 +1,473 @@
-import TamocV.Model.SaveLoad
+/-
+  C18 — Saved simulations reload identically.   Property theorems only.
+
+  Model: TamocV/Model/SaveLoad.lean (the file as a finite map; writers/readers transcribed from
+  dispersed_phases, single_bubble_model, bent_plume_model, stratified_plume_model, ambient).
+  The theorems about data movement are generic in the value type `α` (any `[Num α]`: they hold
+  for ℝ and for Float, NaN included); the witnesses of the losses and the normalisation of the
+  group-contribution array are over ℝ.
+
+  * `…_load_save_partial`  load (save x) = x with the unsaved fields reset (`Particle.forget`):
+       every solution array, every model parameter, every stored particle-definition field,
+       for any number of particles / compounds / tracers / rows
+  * `…_arrays_exact`       the solution arrays alone, with no hypothesis on the particles
+  * `…_resave_fixpoint`    save (load (save x)) = save x
+  * `load_save_id`         full strength under `NoLoss`
+  * `load_save_id_false`, `…_not_saved`  the full statement is FALSE for the code as written:
+       concrete witnesses (two definitions, one file) for delta, lag_time, the optional user-data
+       keys, k_bio/t_bio/fp_type of insoluble particles, cj
+  * `bpm_save_raises_without_tracers`
+  * `normGroups_*`         the constructor's normalisation of delta_groups is idempotent (ℝ)
+  * `profile_*`            create_nc_db/fill_nc_db followed by get_nc_data returns the table
+-/
+import TamocV.Real
+import TamocV.Lemmas.Basic
 import TamocV.Lemmas.C18
+import Mathlib.Tactic.NormNum
+import Mathlib.Tactic.FieldSimp
+import Mathlib.Tactic.Linarith
+set_option linter.unusedSimpArgs false
+set_option linter.unusedVariables false
+set_option linter.unusedSectionVars false
+
 namespace TamocV.Props.C18
-open TamocV.Model.SaveLoad
-theorem b2i_true : b2i true = 1 := rfl
+open TamocV.Model.SaveLoad TamocV.Lemmas.C18
+
+section Generic
+variable {α : Type} [Num α]
+
+theorem particles_load_save_partial (pt : Nat) (hpt : pt ≤ 2) (chem ucomp : List String) (Ta : α)
+    (ps : List (Particle α)) (tbl : Table α)
+    (hs : saveTable pt chem ps (ps.map (·.K_T)) = some tbl) (hwf : ListWF pt chem ucomp Ta ps) :
+    loadParticles ((taFile Ta).add (tbl.toFile pt)) = (ps.map Particle.forget, chem) := by
+  have ht := saveTable_some _ _ _ _ _ hs
+  subst ht
+  unfold loadParticles
+  rw [ofFile_plain Ta pt hpt _ (mkTable_ok _ _ _ _)]
+  exact loadParticlesT_mkTable pt hpt chem ucomp ps _ (by simpa [at1, valF, ListWF] using hwf)
+
+theorem sbm_load_save_partial (h : Header) (s : Sbm α) (f : File α) (ucomp : List String) (Ta : α)
+    (hs : saveSbm h s = some f)
+    (hK : s.K_T0 = s.particle.K_T)
+    (hwf : ParticleWF 0 s.composition ucomp Ta s.particle)
+    (hy : ∀ row ∈ s.y, row.length = (s.y.headD []).length) (hlen : s.y.length = s.t.length) :
+    loadSbm f = { s with particle := s.particle.forget } := by
+  obtain ⟨tbl, hst, rfl⟩ := saveSbm_eq h s f hs
+  obtain ⟨h1, h2, h3, h4⟩ := sbm_arrays h s _ hs hy hlen
+  have ht := saveTable_some _ _ _ _ _ hst
+  have hp : loadParticles ((header h).add ((sbmOwn s).add (tbl.toFile 0))) = ([s.particle.forget], s.composition) := by
+    unfold loadParticles
+    subst ht
+    rw [ofFile_sbm h s _ (mkTable_ok _ _ _ _), hK]
+    have := loadParticlesT_mkTable 0 (by decide) s.composition ucomp [s.particle] []
+      (by intro p hp; rw [List.mem_singleton.mp hp]; exact hwf.ta_irrel)
+    simpa [mkTable] using this
+  rcases s with ⟨particle, composition, K_T0, delta_t, t, y⟩
+  simp only at h1 h2 h3 h4 hp ⊢
+  unfold loadSbm at h1 h2 h3 h4 ⊢
+  simp only [Sbm.mk.injEq]
+  refine ⟨?_, ?_, h3, h4, h1, h2⟩
+  · rw [hp]; rfl
+  · rw [hp]
+
+theorem bpm_load_save_partial (h : Header) (s : Bpm α) (f : File α) (ucomp : List String)
+    (hs : saveBpm h s = some f)
+    (hX : s.X.length = 3)
+    (hK : s.K_T0 = s.particles.map (·.K_T))
+    (hwf : ListWF 2 s.chem_names ucomp s.Ta s.particles)
+    (hq : ∀ row ∈ s.q, row.length = s.ns) (hlen : s.q.length = s.t.length) :
+    ∃ c, s.cj.getLast? = some c ∧
+      loadBpm f = { s with particles := s.particles.map Particle.forget, cj := [c] } := by
+  obtain ⟨c, tbl, hc, hst, rfl⟩ := saveBpm_eq h s f hs
+  refine ⟨c, hc, ?_⟩
+  have ht := saveTable_some _ _ _ _ _ hst
+  have hp : loadParticles ((header h).add ((bpmOwn s c).add (tbl.toFile 2))) =
+      (s.particles.map Particle.forget, s.chem_names) := by
+    unfold loadParticles
+    subst ht
+    rw [ofFile_bpm h s c _ (mkTable_ok _ _ _ _), hK]
+    exact loadParticlesT_mkTable 2 (by decide) s.chem_names ucomp s.particles _ (by simpa [at1, valF, ListWF] using hwf)
+  have hqq := tab_roundtrip s.q s.t.length s.t.length s.ns hlen (Nat.le_refl _) hq
+  have htt := col0_roundtrip s.t
+  have hx := list3 s.X hX
+  rcases s with ⟨X, D, Vj, phi_0, theta_0, Sj, Tj, cj, tracers, chem_names, particles, track, dt_max, sd_max, K_T0, ns, t, q, Ta, Sa, P⟩
+  simp only at hp hqq htt hx hK ⊢
+  unfold loadBpm
+  rw [hp]
+  simp only [Bpm.mk.injEq]
+  simp [bpmOwn, p1, File.f1, File.f2, File.i1, File.dim, File.names, File.vattrN, File.add, header, vF, vF2, vI, va,
+    List.lookup, at1, valF_some, valI_some, hqq, htt, hx, hK, forget_K_T', b2i]
+  cases track <;> simp
+
+theorem spm_load_save_partial (h : Header) (s : Spm α) (f : File α) (ucomp : List String)
+    (hs : saveSpm h s = some f)
+    (hK : s.K_T0 = s.particles.map (·.K_T))
+    (hwf : ListWF 1 s.chem_names ucomp s.Ta s.particles)
+    (hyi : ∀ row ∈ s.yi, row.length = s.nsi) (hli : s.yi.length = s.zi.length)
+    (hyo : ∀ row ∈ s.yo, row.length = s.nso) (hlo : s.yo.length = s.zo.length) :
+    loadSpm f = { s with particles := s.particles.map Particle.forget } := by
+  obtain ⟨tbl, hst, rfl⟩ := saveSpm_eq h s f hs
+  have ht := saveTable_some _ _ _ _ _ hst
+  have hp : loadParticles ((header h).add ((spmOwn s).add (tbl.toFile 1))) =
+      (s.particles.map Particle.forget, s.chem_names) := by
+    unfold loadParticles
+    subst ht
+    rw [ofFile_spm h s _ (mkTable_ok _ _ _ _), hK]
+    exact loadParticlesT_mkTable 1 (by decide) s.chem_names ucomp s.particles _ (by simpa [at1, valF, ListWF] using hwf)
+  have h1 := tab_roundtrip s.yi s.zi.length (Nat.max s.zi.length s.zo.length) s.nsi hli (Nat.le_max_left _ _) hyi
+  have h2 := tab_roundtrip s.yo s.zo.length (Nat.max s.zi.length s.zo.length) s.nso hlo (Nat.le_max_right _ _) hyo
+  obtain ⟨h3, h4⟩ := zcol_roundtrip s.zi s.zo
+  rcases s with ⟨particles, chem_names, K_T0, R, maxit, toler, delta_z, nsi, nso, zi, yi, zo, yo, Ta, Sa, P⟩
+  simp only at hp h1 h2 h3 h4 hK ⊢
+  unfold loadSpm
+  rw [hp]
+  simp only [Spm.mk.injEq]
+  simp [spmOwn, p1, File.f1, File.f2, File.i1, File.dim, File.names, File.vattrN, File.add, header, vF, vF2, vI, va,
+    List.lookup, at1, valF_some, valI_some, h1, h2, h3, h4, hK, forget_K_T', zAttrs]
+
+/-! ### the solution arrays alone: no hypothesis on the particles -/
+
+theorem sbm_arrays_exact (h : Header) (s : Sbm α) (f : File α) (hs : saveSbm h s = some f)
+    (hy : ∀ row ∈ s.y, row.length = (s.y.headD []).length) (hlen : s.y.length = s.t.length) :
+    (loadSbm f).t = s.t ∧ (loadSbm f).y = s.y ∧ (loadSbm f).K_T0 = s.K_T0 ∧ (loadSbm f).delta_t = s.delta_t :=
+  sbm_arrays h s f hs hy hlen
+
+theorem bpm_arrays_exact (h : Header) (s : Bpm α) (f : File α) (hs : saveBpm h s = some f)
+    (hq : ∀ row ∈ s.q, row.length = s.ns) (hlen : s.q.length = s.t.length) :
+    (loadBpm f).t = s.t ∧ (loadBpm f).q = s.q := by
+  obtain ⟨c, tbl, hc, hst, rfl⟩ := saveBpm_eq h s f hs
+  have hqq := tab_roundtrip s.q s.t.length s.t.length s.ns hlen (Nat.le_refl _) hq
+  have htt := col0_roundtrip s.t
+  rcases s with ⟨X, D, Vj, phi_0, theta_0, Sj, Tj, cj, tracers, chem_names, particles, track, dt_max, sd_max, K_T0, ns, t, q, Ta, Sa, P⟩
+  simp only at hqq htt ⊢
+  unfold loadBpm
+  simp [bpmOwn, p1, File.f1, File.f2, File.i1, File.dim, File.names, File.vattrN, File.add, header, vF, vF2, vI, va,
+    List.lookup, hqq, htt]
+
+theorem spm_arrays_exact (h : Header) (s : Spm α) (f : File α) (hs : saveSpm h s = some f)
+    (hyi : ∀ row ∈ s.yi, row.length = s.nsi) (hli : s.yi.length = s.zi.length)
+    (hyo : ∀ row ∈ s.yo, row.length = s.nso) (hlo : s.yo.length = s.zo.length) :
+    (loadSpm f).zi = s.zi ∧ (loadSpm f).yi = s.yi ∧ (loadSpm f).zo = s.zo ∧ (loadSpm f).yo = s.yo := by
+  obtain ⟨tbl, hst, rfl⟩ := saveSpm_eq h s f hs
+  have h1 := tab_roundtrip s.yi s.zi.length (Nat.max s.zi.length s.zo.length) s.nsi hli (Nat.le_max_left _ _) hyi
+  have h2 := tab_roundtrip s.yo s.zo.length (Nat.max s.zi.length s.zo.length) s.nso hlo (Nat.le_max_right _ _) hyo
+  obtain ⟨h3, h4⟩ := zcol_roundtrip s.zi s.zo
+  rcases s with ⟨particles, chem_names, K_T0, R, maxit, toler, delta_z, nsi, nso, zi, yi, zo, yo, Ta, Sa, P⟩
+  simp only at h1 h2 h3 h4 ⊢
+  unfold loadSpm
+  simp [spmOwn, p1, File.f1, File.f2, File.i1, File.dim, File.names, File.vattrN, File.add, header, vF, vF2, vI, va,
+    List.lookup, h1, h2, h3, h4, zAttrs]
+
+/-! ### re-save fixpoint: save (load (save x)) = save x -/
+
+theorem particles_resave_fixpoint (pt : Nat) (hpt : pt ≤ 2) (chem ucomp : List String) (Ta : α)
+    (ps : List (Particle α)) (tbl : Table α)
+    (hs : saveTable pt chem ps (ps.map (·.K_T)) = some tbl) (hwf : ListWF pt chem ucomp Ta ps) :
+    let r := loadParticles ((taFile Ta).add (tbl.toFile pt))
+    saveTable pt r.2 r.1 (r.1.map (·.K_T)) = some tbl := by
+  simp only [particles_load_save_partial pt hpt chem ucomp Ta ps tbl hs hwf, forget_K_T, saveTable_forget, hs]
+
+theorem sbm_resave_fixpoint (h : Header) (s : Sbm α) (f : File α) (ucomp : List String) (Ta : α)
+    (hs : saveSbm h s = some f) (hK : s.K_T0 = s.particle.K_T)
+    (hwf : ParticleWF 0 s.composition ucomp Ta s.particle)
+    (hy : ∀ row ∈ s.y, row.length = (s.y.headD []).length) (hlen : s.y.length = s.t.length) :
+    saveSbm h (loadSbm f) = some f := by
+  rw [sbm_load_save_partial h s f ucomp Ta hs hK hwf hy hlen, ← hs]
+  have := saveTable_forget 0 s.composition [s.particle] [s.K_T0]
+  simp only [List.map_cons, List.map_nil] at this
+  simp only [saveSbm, this]
+  rfl
+
+theorem bpm_resave_fixpoint (h : Header) (s : Bpm α) (f : File α) (ucomp : List String)
+    (hs : saveBpm h s = some f) (hX : s.X.length = 3) (hK : s.K_T0 = s.particles.map (·.K_T))
+    (hwf : ListWF 2 s.chem_names ucomp s.Ta s.particles)
+    (hq : ∀ row ∈ s.q, row.length = s.ns) (hlen : s.q.length = s.t.length) :
+    saveBpm h (loadBpm f) = some f := by
+  obtain ⟨c, hc, hl⟩ := bpm_load_save_partial h s f ucomp hs hX hK hwf hq hlen
+  rw [hl, ← hs]
+  simp only [saveBpm, hc, List.getLast?_singleton, saveTable_forget]
+  rfl
+
+theorem spm_resave_fixpoint (h : Header) (s : Spm α) (f : File α) (ucomp : List String)
+    (hs : saveSpm h s = some f) (hK : s.K_T0 = s.particles.map (·.K_T))
+    (hwf : ListWF 1 s.chem_names ucomp s.Ta s.particles)
+    (hyi : ∀ row ∈ s.yi, row.length = s.nsi) (hli : s.yi.length = s.zi.length)
+    (hyo : ∀ row ∈ s.yo, row.length = s.nso) (hlo : s.yo.length = s.zo.length) :
+    saveSpm h (loadSpm f) = some f := by
+  rw [spm_load_save_partial h s f ucomp hs hK hwf hyi hli hyo hlo, ← hs]
+  simp only [saveSpm, saveTable_forget]
+  rfl
+
+/-! ### full strength, where nothing the file lacks was set -/
+
+theorem load_save_id (pt : Nat) (hpt : pt ≤ 2) (chem ucomp : List String) (Ta : α)
+    (ps : List (Particle α)) (tbl : Table α)
+    (hs : saveTable pt chem ps (ps.map (·.K_T)) = some tbl) (hwf : ListWF pt chem ucomp Ta ps)
+    (hn : ∀ p ∈ ps, NoLoss p) :
+    loadParticles ((taFile Ta).add (tbl.toFile pt)) = (ps, chem) := by
+  rw [particles_load_save_partial pt hpt chem ucomp Ta ps tbl hs hwf]
+  congr 1
+  conv => rhs; rw [← List.map_id ps]
+  exact List.map_congr_left hn
+
+/-- two particle lists that agree on what the file holds give the same file -/
+theorem save_eq_of_forget_eq (pt : Nat) (chem : List String) (ps qs : List (Particle α)) (K : List α)
+    (h : ps.map Particle.forget = qs.map Particle.forget) :
+    saveTable pt chem ps K = saveTable pt chem qs K := by
+  rw [← saveTable_forget pt chem ps K, ← saveTable_forget pt chem qs K, h]
+
+theorem bpm_save_raises_without_tracers (h : Header) (s : Bpm α) (hc : s.cj = []) : saveBpm h s = none := by
+  simp [saveBpm, hc]
+
+/-! ### ambient profile data base -/
+
+/-- A profile written with `create_nc_db` + `fill_nc_db` and read back with `get_nc_data`
+    is the table that was written: every column (depth first), value by value, with its
+    units — for any number of columns and rows.  (`Profile(nc)` and `Profile(array)` then run
+    the same constructor on identical input, hence interpolate identically.) -/
+theorem profile_load_save (c m : String) (p : ProfileDb α) (f : File α)
+    (hs : saveProfile c m p = some f)
+    (hnd : (p.cols.map (·.name)).Nodup) (hz : p.z.name ∉ p.cols.map (·.name)) :
+    loadProfile f [p.z.name] (p.cols.map (·.name)) =
+      (p.z.name, p.z.units, p.z.vals) :: p.cols.map fun c => (c.name, c.units, c.vals) := by
+  unfold saveProfile at hs
+  cases h1 : fillVar (createVars p) p.z "" "" with
+  | none => simp [h1] at hs
+  | some v1 =>
+    cases h2 : fillCols (setValid v1 p.z) p.cols with
+    | none => simp [h1, h2] at hs
+    | some vars =>
+      simp only [h1, h2, bind, Option.bind, pure] at hs
+      cases hs
+      obtain ⟨hA, hB⟩ := fillCols_holds p.cols _ _ h2 hnd
+      have hzH : Holds vars p.z :=
+        holds_congr _ _ _ (hB _ hz) (setValid_holds _ _ _ (fillVar_holds _ _ _ _ _ h1))
+      unfold loadProfile
+      simp only [List.singleton_append, List.map_cons, List.map_map]
+      congr 1
+      · exact loadCol_of_holds _ _ hzH
+      · apply List.map_congr_left
+        intro d hd
+        exact loadCol_of_holds _ _ (hA d hd)
+
+end Generic
+section Reals
+
+/-- group contributions switched off: the all-zero array is what the constructor keeps -/
+theorem normGroups_zero (nc : Nat) : normGroups nc (zeros nc 15 : List (List ℝ)) = (-1, zeros nc 15) := by
+  unfold normGroups
+  have : Num.sum ((zeros nc 15 : List (List ℝ)).map Num.sum) = 0 := by
+    simp [zeros, Num.real_zero]
+  rw [this, isZero_real]
+  simp
+
+/-- an array whose rows are already normalised (each sums to 1) is kept as it is -/
+theorem normGroups_stable (nc : Nat) (g : List (List ℝ)) (hnc : 0 < nc) (hl : g.length = nc)
+    (hr : ∀ r ∈ g, r.length = 15 ∧ r.sum = 1) : normGroups nc g = (1, g) := by
+  unfold normGroups
+  have hs : Num.sum (g.map Num.sum) = (nc : ℝ) := by
+    simp only [Num.real_sum]
+    have : g.map List.sum = List.replicate nc (1 : ℝ) := by
+      apply List.ext_getElem
+      · simp [hl]
+      · intro i h1 h2
+        have hi : i < g.length := by simpa using h1
+        simp [(hr _ (List.getElem_mem hi)).2]
+    have h2 : (Num.sum : List ℝ → ℝ) = List.sum := by funext l; simp
+    rw [h2, this]; simp
+  have hne : (nc : ℝ) ≠ 0 := by exact_mod_cast (Nat.pos_iff_ne_zero.mp hnc)
+  rw [hs, isZero_real]
+  simp only [hne, decide_false, Bool.false_eq_true, if_false]
+  have hall : (g.all fun r => decide (r.length = 15)) = true := by
+    simp only [List.all_eq_true, decide_eq_true_eq]
+    exact fun r hr' => (hr r hr').1
+  simp only [hl, hall, and_self, if_true]
+  congr 1
+  conv => rhs; rw [← List.map_id g]
+  apply List.map_congr_left
+  intro r hr'
+  simp only [Num.real_sum, (hr r hr').2, div_one, id]
+  simp
+
+/-- the constructor's normalisation is idempotent: applying it to its own result changes
+    nothing (rows with non-zero sums; exact over ℝ, a few ulp in floating point) -/
+theorem normGroups_idempotent (nc : Nat) (g : List (List ℝ)) (hnc : 0 < nc) (hl : g.length = nc)
+    (hr : ∀ r ∈ g, r.length = 15 ∧ r.sum ≠ 0) (htot : (g.map List.sum).sum ≠ 0) :
+    normGroups nc (normGroups nc g).2 = normGroups nc g := by
+  have h1 : normGroups nc g = (1, g.map fun r => r.map fun x => x / r.sum) := by
+    unfold normGroups
+    have h2 : (Num.sum : List ℝ → ℝ) = List.sum := by funext l; simp
+    simp only [Num.real_sum, h2, isZero_real, htot, decide_false, Bool.false_eq_true, if_false]
+    have hall : (g.all fun r => decide (r.length = 15)) = true := by
+      simp only [List.all_eq_true, decide_eq_true_eq]
+      exact fun r hr' => (hr r hr').1
+    simp [hl, hall]
+  rw [h1]
+  apply normGroups_stable nc _ hnc (by simp [hl])
+  intro r hr'
+  obtain ⟨r0, hr0, rfl⟩ := List.mem_map.mp hr'
+  refine ⟨by simp [(hr r0 hr0).1], ?_⟩
+  rw [sum_map_div]
+  exact div_self (hr r0 hr0).2
+
+
+/-! ### the full statement is false for the code as written: witnesses -/
+
+/-- the witness particle is well formed as a particle of any of the three classes
+    (ambient temperature 280 K, particle 290 K: heat transfer stays on) -/
+theorem witness_particle_wf (pt : Nat) : ParticleWF pt ["methane", "ethane"] ["methane"] (280 : ℝ) wP := by
+  refine ⟨?_, ?_, ?_, ?_⟩
+  · show FluidWF _ _ wFluid
+    refine ⟨rfl, Or.inr rfl, by simp [wFluid, wUser], ?_, by decide, ?_⟩
+    · intro u hu
+      simp only [wFluid, List.mem_singleton] at hu
+      subst hu; rfl
+    · exact normGroups_zero 2
+  · constructor <;> intro _ <;> simp [wP, wBase, Num.real_zero]
+  · intro e he; cases he
+  · intro _ hc
+    have := hc.2
+    simp only [wP, wBase, Num.real_abs, Num.real_ofSci] at this
+    norm_num at this
+
+theorem witness_insoluble_wf (pt : Nat) : ParticleWF pt ["methane", "ethane"] ["methane"] (280 : ℝ) wI := by
+  refine ⟨rfl, ?_, ?_, ?_⟩
+  · constructor <;> intro _ <;> simp [wI, wBase, Num.real_zero]
+  · intro e he; cases he
+  · intro _ hc
+    have := hc.2
+    simp only [wI, wBase, Num.real_abs, Num.real_ofSci] at this
+    norm_num at this
+
+theorem witness_wf : ListWF 0 ["methane", "ethane"] ["methane"] (280 : ℝ) [wP] := by
+  intro p hp
+  rw [List.mem_singleton.mp hp]
+  exact witness_particle_wf 0
+
+theorem witness_saves : saveTable 0 ["methane", "ethane"] [wP] ([wP].map (·.K_T)) =
+    some (mkTable 0 ["methane", "ethane"] [wP] ([wP].map (·.K_T))) := by
+  simp [saveTable, saveOk, m0Ok, userOk, userComposition, nchemsOf, wP, wBase, wFluid, wUser, findUser]
+
+/-- `∀ x, load (save x) = x` does not hold: the witness is a valid single particle whose file
+    loads to a different particle (lag_time, delta and the optional user-data keys are gone) -/
+theorem load_save_id_false :
+    ¬ (∀ (pt : Nat) (chem ucomp : List String) (Ta : ℝ) (ps : List (Particle ℝ)) (tbl : Table ℝ),
+        pt ≤ 2 → saveTable pt chem ps (ps.map (·.K_T)) = some tbl → ListWF pt chem ucomp Ta ps →
+        loadParticles ((taFile Ta).add (tbl.toFile pt)) = (ps, chem)) := by
+  intro H
+  have h1 := H 0 _ _ 280 [wP] _ (by decide) witness_saves witness_wf
+  have h2 := particles_load_save_partial 0 (by decide) _ _ 280 [wP] _ witness_saves witness_wf
+  rw [h2] at h1
+  have h3 := congrArg (fun r => (r.1.map (·.lag_time))) h1
+  simp [Particle.forget, wP, wBase] at h3
+
+/-- interaction coefficients: two definitions that differ only in `delta` give the same file -/
+theorem delta_not_saved :
+    ∃ p q : Particle ℝ, (∃ f g, p.dbm = .fluid f ∧ q.dbm = .fluid g ∧ f.delta ≠ g.delta) ∧
+      ∀ pt chem K, saveTable pt chem [p] K = saveTable pt chem [q] K := by
+  refine ⟨wP, wBase (.fluid { wFluid with delta := zeros 2 2 }) [1e-6, 1e-6] false, ?_, ?_⟩
+  · refine ⟨wFluid, { wFluid with delta := zeros 2 2 }, rfl, rfl, ?_⟩
+    simp [wFluid, zeros, Num.real_zero]
+    norm_num
+  · intro pt chem K
+    exact save_eq_of_forget_eq pt chem _ _ K rfl
+
+theorem lag_time_not_saved :
+    ∃ p q : Particle ℝ, p.lag_time ≠ q.lag_time ∧
+      ∀ pt chem K, saveTable pt chem [p] K = saveTable pt chem [q] K := by
+  refine ⟨wP, wBase (.fluid wFluid) [1e-6, 1e-6] true, by simp [wP, wBase], ?_⟩
+  intro pt chem K
+  exact save_eq_of_forget_eq pt chem _ _ K rfl
+
+/-- user-supplied chemical data: k_bio, t_bio, C_pen, C_pen_T of a `user_data` entry -/
+theorem user_data_extras_not_saved :
+    ∃ p q : Particle ℝ, (∃ f g u v, p.dbm = .fluid f ∧ q.dbm = .fluid g ∧ f.user_data = [u] ∧ g.user_data = [v] ∧
+        u.k_bio ≠ v.k_bio ∧ u.t_bio ≠ v.t_bio ∧ u.C_pen ≠ v.C_pen ∧ u.C_pen_T ≠ v.C_pen_T) ∧
+      ∀ pt chem K, saveTable pt chem [p] K = saveTable pt chem [q] K := by
+  refine ⟨wP, wBase (.fluid { wFluid with user_data := [wUser.forget] }) [1e-6, 1e-6] false, ?_, ?_⟩
+  · exact ⟨wFluid, { wFluid with user_data := [wUser.forget] }, wUser, wUser.forget, rfl, rfl, rfl, rfl,
+      by simp [wUser, UserChem.forget], by simp [wUser, UserChem.forget], by simp [wUser, UserChem.forget],
+      by simp [wUser, UserChem.forget]⟩
+  · intro pt chem K
+    exact save_eq_of_forget_eq pt chem _ _ K rfl
+
+/-- insoluble particles: k_bio, t_bio and the phase type fp_type -/
+theorem insoluble_bio_fp_type_not_saved :
+    ∃ p q : Particle ℝ, (∃ i j, p.dbm = .insol i ∧ q.dbm = .insol j ∧ i.k_bio ≠ j.k_bio ∧ i.t_bio ≠ j.t_bio ∧
+        i.fp_type ≠ j.fp_type) ∧
+      ∀ pt chem K, saveTable pt chem [p] K = saveTable pt chem [q] K := by
+  refine ⟨wI, wI.forget, ?_, ?_⟩
+  · refine ⟨_, _, rfl, rfl, ?_, ?_, ?_⟩
+    · simp only [Num.real_zero]; norm_num
+    · simp only [Num.real_zero]; norm_num
+    · decide
+  · intro pt chem K
+    exact save_eq_of_forget_eq pt chem _ _ K rfl
+
+/-- tracer concentrations: only the last element of `cj` reaches the file -/
+theorem cj_not_saved :
+    ∃ s s' : Bpm ℝ, s.cj ≠ s'.cj ∧ s.tracers = s'.tracers ∧ ∀ h, saveBpm h s = saveBpm h s' := by
+  let s : Bpm ℝ := ⟨[0, 0, 300], 0.2, 1, -1.5, 0, 0, 290, [1, 2], ["a", "b"], [], [], false, 60, 50, [], 11,
+    [], [], 290, 34, 3e6⟩
+  refine ⟨s, { s with cj := [5, 2] }, ?_, rfl, ?_⟩
+  · simp [s]
+  · intro h
+    simp [saveBpm, s, bpmOwn]
+
+
+/-! ### the hypotheses of the round-trip theorems are satisfiable (concrete, non-trivial states) -/
+
+/-- a single-particle simulation of the witness particle: 2 rows, state vector x,y,z,m₁,m₂,H -/
+noncomputable example : ∃ (s : Sbm ℝ), (saveSbm ⟨"t", "prf.nc", "i", "c", "m"⟩ s).isSome ∧
+    s.K_T0 = s.particle.K_T ∧ ParticleWF 0 s.composition ["methane"] (280 : ℝ) s.particle ∧
+    (∀ row ∈ s.y, row.length = (s.y.headD []).length) ∧ s.y.length = s.t.length ∧ s.t.length = 2 := by
+  refine ⟨⟨wP, ["methane", "ethane"], 1, 10, [0, 10], [[0, 0, 300, 1e-6, 1e-6, 5], [0, 0, 290, 9e-7, 9e-7, 4]]⟩, ?_,
+    rfl, witness_particle_wf 0, by simp, rfl, rfl⟩
+  simp [saveSbm, saveTable, saveOk, m0Ok, userOk, userComposition, nchemsOf, wP, wBase, wFluid, wUser, findUser]
+
+/-- a bent-plume simulation with a soluble and an inert particle, two tracers, three rows -/
+noncomputable example : ∃ (s : Bpm ℝ), s.X.length = 3 ∧ s.K_T0 = s.particles.map (·.K_T) ∧
+    ListWF 2 s.chem_names ["methane"] s.Ta s.particles ∧ (∀ row ∈ s.q, row.length = s.ns) ∧
+    s.q.length = s.t.length ∧ s.particles.length = 2 ∧ s.cj.length = 2 ∧
+    (saveBpm ⟨"t", "prf.nc", "i", "c", "m"⟩ s).isSome := by
+  refine ⟨⟨[0, 0, 300], 0.2, 1, -1.5, 0, 0, 290, [1, 2], ["a", "b"], ["methane", "ethane"], [wP, wI], false, 60, 50,
+    [1, 1], 2, [0, 1, 2], [[1, 2], [3, 4], [5, 6]], 280, 34, 3e6⟩, rfl, rfl, ?_, by simp, rfl, rfl, rfl, ?_⟩
+  · intro p hp
+    simp only [List.mem_cons, List.not_mem_nil, or_false] at hp
+    rcases hp with rfl | rfl
+    · exact witness_particle_wf 2
+    · exact witness_insoluble_wf 2
+  · simp [saveBpm, saveTable, saveOk, m0Ok, userOk, userComposition, nchemsOf, wP, wI, wBase, wFluid, wUser, findUser]
+
+/-- a stratified-plume simulation: inner and outer solutions of different lengths -/
+noncomputable example : ∃ (s : Spm ℝ), s.K_T0 = s.particles.map (·.K_T) ∧
+    ListWF 1 s.chem_names ["methane"] s.Ta s.particles ∧
+    (∀ row ∈ s.yi, row.length = s.nsi) ∧ s.yi.length = s.zi.length ∧
+    (∀ row ∈ s.yo, row.length = s.nso) ∧ s.yo.length = s.zo.length ∧ s.zi.length ≠ s.zo.length ∧
+    (saveSpm ⟨"t", "prf.nc", "i", "c", "m"⟩ s).isSome := by
+  refine ⟨⟨[wP, wI], ["methane", "ethane"], [1, 1], 0.1, 2, 0.2, 1, 2, 1, [100, 99], [[1, 2], [3, 4]], [99, 99.5, 100],
+    [[1], [2], [3]], 280, 34, 1e6⟩, rfl, ?_, by simp, rfl, by simp, rfl, by decide, ?_⟩
+  · intro p hp
+    simp only [List.mem_cons, List.not_mem_nil, or_false] at hp
+    rcases hp with rfl | rfl
+    · exact witness_particle_wf 1
+    · exact witness_insoluble_wf 1
+  · simp [saveSpm, saveTable, saveOk, m0Ok, userOk, userComposition, nchemsOf, wP, wI, wBase, wFluid, wUser, findUser]
+
+/-- group-contribution arrays: a normalised 2 × 15 array satisfies `normGroups_stable` -/
+example : ∀ r ∈ ([[0, 0, 0, 0, 1, 0, 0, 0, 0, 0, 0, 0, 0, 0, 0], [0.5, 0.25, 0.25, 0, 0, 0, 0, 0, 0, 0, 0, 0, 0, 0, 0]] :
+    List (List ℝ)), r.length = 15 ∧ r.sum = 1 := by
+  intro r hr
+  simp only [List.mem_cons, List.not_mem_nil, or_false] at hr
+  rcases hr with rfl | rfl <;> constructor <;> norm_num
+
+/-- a profile data base with two dependent columns -/
+noncomputable example : ∃ (p : ProfileDb ℝ), (saveProfile "c" "m" p).isSome ∧
+    (p.cols.map (·.name)).Nodup ∧ p.z.name ∉ p.cols.map (·.name) ∧ p.cols.length = 2 := by
+  refine ⟨⟨"s", "src", "sea", 28, 270, 0, ⟨"z", "m", "c", [0, 100]⟩,
+    [⟨"temperature", "K", "c", [290, 280]⟩, ⟨"oxygen", "kg/m^3", "c", [1e-3, 2e-3]⟩]⟩, ?_, by simp, by simp, rfl⟩
+  simp [saveProfile, fillVar, fillCols, createVars, setValid, mapVal, List.lookup, va, zAttrs, coordAttr, setAttr, bind, pure]
+
+end Reals
+
 end TamocV.Props.C18
